@@ -105,6 +105,12 @@ D = {
     "C20e": ("SolutionIterator treats a field whose last dimension equals the number of instants as stored column-wise", "a square field: as many stored instants as coordinates (3 instants of a point mass, 6 or 7 of a rigid body)"),
     "C21e": ("fixed_point_iteration without the defensive copies (same slip as seeded/C22b, found independently)", "DualStormerVerlet(accelerated=False) with a step equation that is nonlinear in u: convergence is declared after one update, nothing raises"),
     "C24e": ("System.set_new_initial_state writes into the contributions' existing q0 / u0 arrays (same idea as seeded/C09c, found independently)", "bodies created with one shared u0 array, or with integer-typed initial arrays"),
+    "C06e": ("skew2ax reads the lower-triangle entries only and Frame.B_Psi drops the symmetric term A_t^T A_t (two cooperating sites, each harmless alone)", "a sphere carried by a Frame whose body angular velocity has two non-zero components: gamma_F_dot is not the rate of gamma_F"),
+    "C08e": ("RigidBody.v_P_q becomes a cachedmethod whose key lacks u", "a velocity-dependent force law on an eccentric point of a rigid body, Jacobian evaluated twice at the same (t, q) with different u"),
+    "C11e": ("rod r_OP adds the offset into the cached centerline (`r_OP += A_IB @ B_r_CP`), same idea as seeded/C11b", "non-zero B_r_CP and a second query of the same (qe, xi) while the entry is cached"),
+    "C13e": ("Mesh1D.eval_basis cache key without the element number (same slip as seeded/C13b, found independently)", "xi on an interior element boundary asked for two different elements"),
+    "C26e": ("rod r_OP adds the offset into the cached centerline (same change as seeded/C11e, found independently)", "non-zero B_r_CP, repeated evaluation at the same (qe, xi)"),
+    "C29e": ("export_contr builds the frame file with Path.with_suffix (same slip as seeded/C29d, found independently)", "a name containing a dot"),
     "C22b": ("fixed_point_iteration calls fun(x) without the defensive copy", "a fixed-point map that updates its argument in place (DualStormerVerlet's own map with accelerated=False does)"),
 }
 rows = []
